@@ -4,6 +4,7 @@ import RbpfModel.Model.Verifier
 import RbpfModel.Model.WellFormed
 import RbpfModel.Model.Interp
 import RbpfModel.Model.Isa
+import RbpfModel.Model.Taint
 namespace Rbpf.Drive
 open Rbpf.Hex
 
@@ -45,6 +46,10 @@ structure ExecCase where
   mbuffbase : Nat
   stackbase : Nat
   extrabase : List Nat
+  kind : String
+  engines : Bool
+  fixoff : Nat × Nat
+  fixedbase : Nat
 
 def parseExec? (toks : List String) : Option ExecCase := do
   let kv := kvOf toks
@@ -66,8 +71,13 @@ def parseExec? (toks : List String) : Option ExecCase := do
   let budget ← match look kv "budget" with | none => some 10000 | some v => v.toNat?
   let nat (k : String) : Option Nat := match look kv k with | none => some 0 | some v => parseNat? v
   let extrabase ← (listOf ((look kv "extrabase").getD "-") ",").mapM parseNat?
+  let fixoff ← match look kv "fixoff" with
+    | none => some (0, 8)
+    | some v => match v.splitOn ":" with | [a, b] => do pure ((← a.toNat?), (← b.toNat?)) | _ => none
   pure { prog := ← bytes "prog", mem := ← bytes "mem", mbuff := ← bytes "mbuff", helpers, calcT, extra, arange, patch, budget,
-         membase := ← nat "membase", mbuffbase := ← nat "mbuffbase", stackbase := ← nat "stackbase", extrabase }
+         membase := ← nat "membase", mbuffbase := ← nat "mbuffbase", stackbase := ← nat "stackbase", extrabase,
+         kind := (look kv "kind").getD "mbuff", engines := match look kv "engines" with | none => false | some v => v != "-" && v != "",
+         fixoff, fixedbase := ← nat "fixedbase" }
 
 def wrap64 (base : Nat) (d : Int) : Nat := ((base : Int) + d).emod (2 ^ 64) |>.toNat
 
@@ -94,16 +104,31 @@ def mkEnv (c : ExecCase) (prog : Bytes) : Env :=
     allowed := c.arange.map fun (i, lo, hi) => (wrap64 (c.extrabase.getD i 0) lo, wrap64 (c.extrabase.getD i 0) hi)
     usage := Interp.stackUsage prog (c.calcT.map fun t => fun pc => t.getD (pc % t.size) 0) }
 
+/-- `LittleEndian::write_u64(&mut buf[off..], v)` -/
+def writeU64 (buf : Bytes) (off v : Nat) : Bytes :=
+  (List.range 8).foldl (fun b k => b.setIfInBounds (off + k) (BitVec.ofNat 8 (v >>> (8 * k)))) buf
+
+/-- the (mem, mbuff) pair each VM kind hands to the interpreter -/
 def mkMem (c : ExecCase) : Memory :=
-  { mbuff := ⟨c.mbuffbase, c.mbuff⟩, mem := ⟨c.membase, c.mem⟩, stack := ⟨c.stackbase, Array.replicate 512 0⟩,
-    extra := (c.extra.zip c.extrabase).map fun (b, a) => ⟨a, b⟩ }
+  let stack : Region := ⟨c.stackbase, Array.replicate 512 0⟩
+  let extra := (c.extra.zip c.extrabase).map fun (b, a) => (⟨a, b⟩ : Region)
+  if c.kind == "raw" then { mbuff := ⟨1, #[]⟩, mem := ⟨c.membase, c.mem⟩, stack, extra }
+  else if c.kind == "nodata" then { mbuff := ⟨1, #[]⟩, mem := ⟨1, #[]⟩, stack, extra }
+  else if c.kind == "fixed" then
+    let (d, e) := c.fixoff
+    let buf : Bytes := Array.replicate ((if d ≥ e then d else e) + 8) 0
+    let buf := writeU64 (writeU64 buf d c.membase) e (c.membase + c.mem.size)
+    { mbuff := ⟨c.fixedbase, buf⟩, mem := ⟨c.membase, c.mem⟩, stack, extra }
+  else { mbuff := ⟨c.mbuffbase, c.mbuff⟩, mem := ⟨c.membase, c.mem⟩, stack, extra }
 
 def detail (c : ExecCase) (s : State) : String :=
   let extraAll := s.mem.extra.foldl (fun acc r => acc ++ r.bytes) (#[] : Bytes)
   let logBytes : List (BitVec 8) := s.log.flatMap fun (k, args) =>
     let n := ((c.helpers.find? (·.1 == k)).map (·.2 % 4)).getD 0
     leBytes n 8 ++ args.flatMap (fun a => leBytes a.toNat 8)
-  s!" mem={u64Hex (fnv s.mem.mem.bytes)} mbuff={u64Hex (fnv s.mem.mbuff.bytes)} extra={u64Hex (fnv extraAll)} log={s.log.length}:{u64Hex (fnvList logBytes)}"
+  let mbuffBytes := if c.kind == "mbuff" then s.mem.mbuff.bytes else c.mbuff     -- other kinds: the harness reports its own (unused) buffer
+  let memBytes := if c.kind == "nodata" then c.mem else s.mem.mem.bytes
+  s!" mem={u64Hex (fnv memBytes)} mbuff={u64Hex (fnv mbuffBytes)} extra={u64Hex (fnv extraAll)} log={s.log.length}:{u64Hex (fnvList logBytes)}"
 
 def handleExec (toks : List String) : String :=
   match parseExec? toks with
@@ -119,6 +144,16 @@ def handleExec (toks : List String) : String :=
         | .panic => "panic"
         | .fault => "fault"
         | .timeout s => "budget" ++ detail c s
+      if c.engines then
+        -- engine comparison: the taint run decides whether the case is inside the claim of C03/C04/C08/C09
+        let ptrSlots := if c.kind == "fixed" then [c.fixedbase + c.fixoff.1, c.fixedbase + c.fixoff.2] else []
+        let (t, r) := Taint.run env ptrSlots (c.patch.map (·.1)) c.budget (Taint.init (mkMem c))
+        let f7 := (List.range (prog.size / 8)).any fun k => match getInsn? prog k with | some i => Isa.isF7 i | none => false
+        let tags := (if f7 then ["f7"] else []) ++ (if t.f16 then ["f16"] else []) ++ (if t.calls > 0 then ["localcall"] else []) ++
+                    (if t.helperCalls > 0 then ["helper"] else [])
+        let claim := match r with | .done _ _ => (if t.inClaim then "in" else "out") | _ => "out"
+        render r ++ " | claim=" ++ claim ++ (if tags.isEmpty then "" else " | tags=" ++ ",".intercalate tags)
+      else
       let m := render (Interp.run env (Interp.init (mkMem c)) c.budget)
       if (look (kvOf toks) "spec") == some "isa" then
         let f7 := (List.range (prog.size / 8)).any fun k => match getInsn? prog k with | some i => Isa.isF7 i | none => false
